@@ -16,6 +16,7 @@ def register(reg):
     register_tree(reg)
     register_formats(reg)
     register_docs(reg)
+    register_seq(reg)
     register_stubs(reg)
     register_hash(reg)
     register_env(reg)
@@ -282,6 +283,17 @@ def register_formats(reg):
     attr("pf_kwargs", "$pf_kwargs")
     attr("fmt_name", "$fmt_name")
     attr("fmt_opts", "$fmt_opts")
+
+
+def register_seq(reg):
+    """sequence access that does not need the static class of the sequence (a list or a tuple, whichever)"""
+    @reg.specfun("seq_item")
+    def seq_item(ex, st, args, cx):
+        return SV(z3.Select(st.rd("$items", ex.o.r(args[0])), ex.o.i(args[1])))
+
+    @reg.specfun("seq_len")
+    def seq_len(ex, st, args, cx):
+        return ex.o.int_(ex.o.seq_len(st, ex.o.r(args[0])))
 
 
 def register_docs(reg):
